@@ -180,7 +180,7 @@ PSTR_LITS = [
     bounds="1..3 placeholders (%s with a tuple or %(name)s with a dict, names in any order) between fixed fragments; parameter values: "
     "int derived from one symbolic n in -2..11 (n, 7-n, 100n; the connector renders ints with repr(), which enumerates values), "
     "bool, None, a string needing escapes, or (first placeholder only) a list / tuple for IN of two such strings, an int, None and a bool, chosen symbolically per position; "
-    "sharded by (number of placeholders, kind of the first)",
+    "sharded by (number of placeholders, kind of the first); a dict given as parameters is left untouched and binds to the same text again",
     timeout=(300, 900),
     shards=(18, 18),
     stubs=["SnowflakeConverter.to_snowflake dispatch by isinstance to the real per-type methods"],
@@ -222,7 +222,17 @@ def placeholders(k: int, as_dict: bool, t0: int, t1: int, t2: int, n: int) -> bo
         names = ["a", "b", "c"][:k]
         cmd = FRAGS[0] + "".join(f"%({nm})s" + FRAGS[i + 1] for i, nm in enumerate(names))
         params = {nm: v for nm, v in zip(reversed(names), reversed(vals))}
+        mine = dict(params)
         text, rest = cur._rewrite_with_params(cmd, params)
+        # the caller's dict is the caller's: binding it a second time (another execute, or executemany over the same object) gives the same text
+        if len(params) != len(mine):
+            return done(False)
+        for nm in names:
+            if params[nm] is not mine[nm]:
+                return done(False)
+        text2, _rest2 = cur._rewrite_with_params(cmd, params)
+        if text2 != text:
+            return done(False)
     else:
         cmd = FRAGS[0] + "".join("%s" + FRAGS[i + 1] for i in range(k))
         text, rest = cur._rewrite_with_params(cmd, tuple(vals))
